@@ -109,6 +109,12 @@ func c03Exec(c c03Case) (res c03Result, sig, msg string) {
 		res.outcome = "none"
 	}
 	if !(cok && sok) {
+		// re-framing leaves every handshake message byte for byte what its sender sent (a message may
+		// span records): it is not tampering with what the property protects, and the outcome must be
+		// the untampered one
+		if c.Edit.Kind == "reframe" && applied {
+			return res, "reframing-changes-outcome", fmt.Sprintf("handshake record %d of direction %d was split into two records (first part: %d, 5 = half); the handshake byte stream is unchanged, yet client=%v server=%v", c.Edit.Rec, c.Edit.Dir, c.Edit.Off, r.CErr, r.SErr)
+		}
 		return res, "", ""
 	}
 	res.bothDone = true
